@@ -67,7 +67,10 @@ def file_tokens(tree):
 
 
 NAME_POOL = ["a.txt", "b", "pipe|name.bin", 'quo"te.txt', "it's", " lead", "trail ", "数据.dat", "é.x", "a,b", "semi;colon", "x.tar.gz",
-             ".hidden", "UP.TXT", "back\\slash", "q\"\"q", "|", "#hash", "name with  spaces.md"]
+             ".hidden", "UP.TXT", "back\\slash", "q\"\"q", "|", "#hash", "name with  spaces.md",
+             # names that are NOT in Unicode normal form C (decomposed accents, compatibility characters): a byte-exact file system
+             # keeps them as they are, and so must the recorded path
+             "cafe\u0301.txt", "A\u030angstro\u0308m", "\u212b.dat", "o\u0302\u0323.bin"]
 
 
 def gen_tree(rng, nfiles=None, depth=2):
@@ -78,7 +81,7 @@ def gen_tree(rng, nfiles=None, depth=2):
     i = 0
     while len(tree) < n and i < 100:
         i += 1
-        parts = [rng.choice(["d", "sub dir", "d|e", "深", "D2"]) for _ in range(rng.randint(0, depth))]
+        parts = [rng.choice(["d", "sub dir", "d|e", "深", "D2", "re\u0301pertoire"]) for _ in range(rng.randint(0, depth))]
         name = rng.choice(NAME_POOL)
         rel = "/".join(parts + [name])
         # a component must not be both file and directory
